@@ -22,13 +22,14 @@ Definition to_pixels (u : unit) : option Q :=
   | _ => None
   end.
 
-(* what length() reads from `style`: style['font_size'], style.root_style['font_size'], character_ratio(style, 'x'|'0') *)
-Record env := { own_fs : Q; root_fs : Q; ex_ratio : Q; ch_ratio : Q }.
+(* what length() reads from `style`: style['font_size'], style.root_style['font_size'], character_ratio(style, 'x'|'0'),
+   style.is_root_element *)
+Record env := { own_fs : Q; root_fs : Q; ex_ratio : Q; ch_ratio : Q; is_root : bool }.
 
 Definition Qzero (q : Q) : bool := Qeq_bool q 0.
 
-(* length(style, name, value, font_size=None, pixels_only=...) *)
-Definition length (e : env) (font_size : option Q) (value : lval) : lres :=
+(* length(style, name, value, font_size=None, pixels_only=...); for_font_size: name == 'font_size' *)
+Definition length (e : env) (for_font_size : bool) (font_size : option Q) (value : lval) : lres :=
   match value with
   | LKeyword => LSame
   | LDim v u =>
@@ -42,7 +43,9 @@ Definition length (e : env) (font_size : option Q) (value : lval) : lres :=
                | Ex => LPx (v * fs * ex_ratio e)
                | Ch => LPx (v * fs * ch_ratio e)
                | Em => LPx (v * fs)
-               | _ => LPx (v * root_fs e)
+               | _ => if is_root e && negb for_font_size
+                      then LPx (v * own_fs e)        (* rem on the root element: its own font size ... *)
+                      else LPx (v * root_fs e)       (* ... except in font-size; elsewhere root_style *)
                end
            | _ => match to_pixels u with Some f => LPx (v * f) | None => LSame end
            end
@@ -77,7 +80,7 @@ Definition font_size (e : env) (parent : option Q) (value : fsval) : option Q :=
   | FLarger => Some (larger parent_fs)
   | FSmaller => Some (smaller parent_fs)
   | FDim v Pct => Some (v * parent_fs / 100)
-  | FDim v u => match length e (Some parent_fs) (LDim v u) with LPx q => Some q | LSame => None end
+  | FDim v u => match length e true (Some parent_fs) (LDim v u) with LPx q => Some q | LSame => None end
   end.
 
 (* set_computed_styles: root_style is {'font_size': INITIAL_VALUES['font_size']} for the root element itself,
@@ -86,8 +89,9 @@ Definition root_font_size_for (is_root : bool) (document_root_fs : Q) : Q :=
   if is_root then initial_font_size else document_root_fs.
 
 (* the env set_computed_styles + ComputedStyle give to the computer functions of an element *)
-Definition element_env (is_root : bool) (own document_root_fs exr chr : Q) : env :=
-  {| own_fs := own; root_fs := root_font_size_for is_root document_root_fs; ex_ratio := exr; ch_ratio := chr |}.
+Definition element_env (root : bool) (own document_root_fs exr chr : Q) : env :=
+  {| own_fs := own; root_fs := root_font_size_for root document_root_fs; ex_ratio := exr; ch_ratio := chr;
+     is_root := root |}.
 
 (* ---- font-weight *)
 Open Scope Z_scope.
@@ -124,7 +128,7 @@ Definition line_height (e : env) (value : lhval) : lhres :=
   | HNormal => RNormal
   | HNumber v => RNumber v
   | HPct v => RPixels (v / 100 * own_fs e)
-  | HLen v u => match length e None (LDim v u) with LPx q => RPixels q | LSame => RBad end
+  | HLen v u => match length e false None (LDim v u) with LPx q => RPixels q | LSame => RBad end
   end.
 
 (* ---- media_queries.evaluate_media_query(query_list, device_media_type) *)
